@@ -11,14 +11,23 @@ func VerifC17_failclosed() {
 	}
 	known := decoration.Named(name) != decoration.EmptyDecoration
 	t := New()
-	t.AddHeaders("h")
-	t.AddRowItems("v")
+	// the refusal does not depend on what the table holds: also a table nothing was added to yet, or
+	// one with headers only
+	shape := vfChoice("shape", 3)
+	if shape != 1 {
+		t.AddHeaders("h")
+	}
+	if shape == 0 {
+		t.AddRowItems("v")
+	}
 	tt, err := t.SetDecorationNamed(name)
 	vfAssert(tt == t, "chains-same-table")
 	out, rerr := t.Render()
 	vfObserveBool("known", known)
 	vfObserveStr("out", out)
-	if known {
+	if known && shape != 0 {
+		vfAssert(err == nil, "known-name-accepted")
+	} else if known {
 		vfAssert(err == nil, "known-name-accepted")
 		vfAssert(rerr == nil, "known-name-renders")
 	} else {
